@@ -11,7 +11,7 @@
 """
 import json, os, shutil, subprocess, sys, time
 VERIF = os.path.dirname(os.path.dirname(os.path.abspath(__file__)))
-ENV = dict(os.environ, GOFLAGS="-mod=mod", GOPROXY="off")
+ENV = dict(os.environ, GOFLAGS="-mod=mod", GOPROXY="off", VERIF_EVIDENCE_DIR=os.path.join(os.path.dirname(os.path.dirname(os.path.abspath(__file__))), ".work", "seed-evidence"))
 ENV.pop("GOTOOLCHAIN", None)
 
 def sh(cmd, cwd, timeout=1800):
